@@ -41,6 +41,18 @@ def run_case(cs, ctx):
     text = sp.render(spec, rng=rng, second_side=True, noise=True)
     path = en.write_file(ctx.workdir, text)
     argv = ['-f', path, '-na', str(spec['na'])] + sp.opts_to_argv(opts, rng)
+    import os as _os0
+    relative = rng.random() < 0.1
+    solve_cwd = [ctx.workdir]
+    if relative:
+        # the file is named relative to the working directory of construction; before a later call the process
+        # moves to another directory that holds a different file of the same name
+        argv[1] = _os0.path.basename(path)
+        elsewhere = _os0.path.join(ctx.workdir, 'elsewhere')
+        _os0.makedirs(elsewhere, exist_ok=True)
+        with open(_os0.path.join(elsewhere, _os0.path.basename(path)), 'w') as fh:
+            fh.write(sp.render(sp.make_spec(random.Random(cs ^ 0x5151)), second_side=True))
+        ctx.cnt('histories_with_a_relative_file_name_and_chdir')
     other = None
     if rng.random() < 0.2:
         # environment action: another Solver object on the SAME unchanged file with other options
@@ -64,11 +76,15 @@ def run_case(cs, ctx):
     case = {'cs': cs, 'argv': ['-f', '<file>'] + argv[2:], 'file': text, 'history': hist,
             'other_object_argv': None if other is None else ['-f', '<file>'] + other[2:]}
     ctx.cnt('histories')
+    _cwd0 = _os0.getcwd()
     try:
+        _os0.chdir(ctx.workdir)
         s = Solver(list(argv))
     except BaseException as e:
         ctx.cnt('unobservable_constructor_failed')
         return
+    finally:
+        _os0.chdir(_cwd0)
     inst = rm.Inst(spec, opts['twopl'])
     steps = rm.elementary_steps(inst, sp.ordered_crits(opts)) if not bf else []
     TAP.reset()
@@ -234,7 +250,9 @@ def run_case(cs, ctx):
                     import os as _os
                     _cwd = _os.getcwd()
                     try:
-                        _os.chdir(ctx.workdir)
+                        if relative and nsolve >= 1:
+                            solve_cwd[0] = _os.path.join(ctx.workdir, 'elsewhere')
+                        _os.chdir(solve_cwd[0])
                         s.solve(**kw)
                     finally:
                         _os.chdir(_cwd)
